@@ -171,3 +171,39 @@ Proof.
   - eapply reroot_path_usplits; eauto.
   - eapply brel_usplits; eauto.
 Qed.
+
+(** * the branch data of the result of [cut_and_root]: the two new branches and old ones *)
+Lemma bs_same_einfo x y : bs_same x y -> fst (fst x) = fst (fst y).
+Proof. intros (H & _). exact H. Qed.
+
+Theorem cut_and_root_edges (Q : einfo -> Prop) t2 pp k cf eP eC P e ch t4 :
+  wf t2 = true -> 2 <= degree t2 ->
+  node_at t2 pp = Some P -> nth_error (uslots P) k = Some (Some (e, ch)) ->
+  cut_and_root t2 pp k cf eP eC = Some t4 ->
+  Q eP -> Q eC -> (forall x, In x (bsplits t2) -> Q (fst (fst x))) ->
+  forall z, In z (bsplits t4) -> Q (fst (fst z)).
+Proof.
+  intros Hwf Hd Hn Hk Hc QP QC Q2 z Hz.
+  destruct (cut_slot_spec (fun _ => 0%Q) k cf eP eC P e ch Hk ltac:(reflexivity))
+    as [P' [C1 [C2 [C3 [C4 [C5 [C6 [C7 C8]]]]]]]].
+  destruct (update_at_spec (fun _ => 0%Q) pp t2 P (cut_slot k cf eP eC) P' Hn C1 C2 C4 C5 C3)
+    as [t3 [U1 [U2 [U3 [U4 [U5 U6]]]]]].
+  destruct (update_at_brel _ _ _ pp t2 P (cut_slot k cf eP eC) P' Hn C1 (cut_slot_brel k cf eP eC P e ch P' Hk C1))
+    as [t3' [U1' HB]].
+  assert (t3' = t3) by congruence. subst t3'.
+  assert (W3 : wf t3 = true) by auto.
+  assert (D3 : 2 <= degree t3) by lia.
+  set (X := cut_node cf eC ch) in *.
+  assert (NX : node_at t3 (pp ++ [degree P - 1]) = Some X).
+  { rewrite node_at_app, U3. simpl. now rewrite C8. }
+  assert (PO : path_ok t3 (pp ++ [degree P - 1])).
+  { eapply node_at_path_ok; eauto. unfold X. destruct cf; simpl; unfold degree; simpl; lia. }
+  unfold cut_and_root in Hc. rewrite Hn, U1 in Hc.
+  pose proof (reroot_path_bsplits _ t3 t4 W3 D3 PO Hc) as SE.
+  destruct (PermR_In _ _ (bs_eq_Equivalence (leaves t3)) _ _ SE _ Hz) as [y [Hy (E1 & _)]].
+  rewrite E1.
+  destruct HB as [_ [_ [rest [rest' [HR [P0 P1]]]]]].
+  apply (Permutation_in _ P1) in Hy. destruct Hy as [<-|[<-|Hy]]; [exact QP | exact QC|].
+  destruct (PermR_In _ _ bs_same_Equivalence _ _ HR _ Hy) as [y0 [Hy0 Hs]].
+  rewrite (bs_same_einfo _ _ Hs). apply Q2. apply (Permutation_in _ (Permutation_sym P0)). now right.
+Qed.
